@@ -44,7 +44,7 @@ def dress(m, rng, p=0.6):
 
 
 def run(ctx):
-    sf = env.load_selfies()
+    sf = env.varied(env.load_selfies(), ctx)
     hooks.attach_m1()
     hooks.attach_m1_encoder()
     hooks.attach_m2()
